@@ -2668,9 +2668,28 @@ pub fn oracle_class(case: &Case, obs: &Observed, reason: &str) -> String {
     if obs.abandoned_session() {
         // N10 (open): a session that ends in the middle of an image leaves its chunks in the file
         format!("stream-abandoned/{}", reason)
+    } else if blob_rule_broken_as_configured(&case.cfg, reason) {
+        // D22 (open): Encoder::set_trns / set_palette take raw bytes and encode_header writes them as they are; the chunk
+        // the validator refuses is the one the CONFIGURATION asked for (a legal configuration whose tRNS / PLTE comes out
+        // wrong is still `invalid/...`)
+        format!("invalid/{}/as-configured", reason)
     } else {
         // inside the domain of C12_writer / C12_stream_partial: nothing is known to be wrong here
         format!("invalid/{}", reason)
+    }
+}
+
+/// the configured raw tRNS / PLTE bytes themselves break the rule the validator names (rules written out here once more)
+fn blob_rule_broken_as_configured(c: &Cfg, reason: &str) -> bool {
+    let pal_entries = c.pal.as_ref().map(|p| p.len() / 3).unwrap_or(0);
+    match reason {
+        "trns-forbidden" => c.trns.is_some() && (c.color == 4 || c.color == 6),
+        "trns-length" => match &c.trns {
+            Some(t) => (c.color == 0 && t.len() != 2) || (c.color == 2 && t.len() != 6) || (c.color == 3 && (t.is_empty() || t.len() > pal_entries)),
+            None => false,
+        },
+        "plte-length" => c.pal.as_ref().map(|p| p.is_empty() || p.len() % 3 != 0 || p.len() > 768).unwrap_or(false),
+        _ => false,
     }
 }
 
@@ -3428,6 +3447,22 @@ fn all_cases(ctx: &mut Ctx) -> Vec<Case> {
         let c = Cfg { w: 2, h: 2, color: 3, depth, comp: 2, filt: 0, ..Default::default() };
         cases.push(Case { cfg: c.clone(), sink: SinkSpec::default(), steps: vec![Step::Image(vec![0; 2 * row_bytes(3, depth, 2)])], fin: PFinal::Finish, origin: "no-palette".into() });
         cases.push(Case { cfg: c.clone(), sink: SinkSpec::default(), steps: vec![Step::Stream(Session { size: 64, ops: vec![SOp::Write(vec![0; 2 * row_bytes(3, depth, 2)])], fin: Fin::Finish })], fin: PFinal::Finish, origin: "no-palette".into() });
+    }
+    // raw tRNS / PLTE blobs the format does not allow for the colour type (Encoder::set_trns / set_palette take bytes as they
+    // are): tRNS on a colour type with an alpha channel, tRNS of the wrong length, more alpha entries than palette entries,
+    // a palette that is not a whole number of entries or has more than 256 / 2^depth of them (finding D22)
+    for (color, depth, pal, trns) in [
+        (6u8, 8u8, None, Some(vec![0u8, 7])), (4, 8, None, Some(vec![0, 7])), (6, 16, None, Some(vec![0; 6])),
+        (0, 8, None, Some(vec![7])), (0, 8, None, Some(vec![0, 7, 0])), (2, 8, None, Some(vec![0; 5])), (2, 16, None, Some(vec![0; 2])),
+        (3, 8, Some(vec![1, 2, 3]), Some(vec![9, 9])), (3, 2, Some(vec![1, 2, 3, 4, 5, 6]), Some(vec![9, 9, 9])),
+        (3, 8, Some(vec![1, 2, 3, 4]), None), (3, 8, Some(vec![1; 771]), None), (3, 1, Some(vec![1; 9]), None), (2, 8, Some(vec![1, 2, 3, 4, 5]), None),
+    ] {
+        let mut c = Cfg { w: 2, h: 2, color, depth, comp: 2, filt: 0, val: true, ..Default::default() };
+        c.pal = pal;
+        c.trns = trns;
+        let data = vec![0u8; 2 * row_bytes(color, depth, 2)];
+        cases.push(Case { cfg: c.clone(), sink: SinkSpec::default(), steps: vec![Step::Image(data.clone())], fin: PFinal::Finish, origin: "illegal-blob".into() });
+        cases.push(Case { cfg: c.clone(), sink: SinkSpec::default(), steps: vec![Step::Stream(Session { size: 64, ops: vec![SOp::Write(data)], fin: Fin::Finish })], fin: PFinal::Finish, origin: "illegal-blob".into() });
     }
     // random configurations with complete programs
     let n = ctx.n(1800, 30000);
